@@ -22,7 +22,7 @@ def check_program(arg):
     src, indents = arg
     es5, unparsers, asttypes = _M['es5'], _M['unparsers'], _M['asttypes']
     try:
-        tree = es5.Parser().parse(src)
+        tree = es5.parse(src)                # the public entry point, many times in a row in this process
     except Exception:
         return None
     out = []
@@ -34,7 +34,7 @@ def check_program(arg):
             out.append((s, 'PRINT-RAISED pretty_print raised %r' % (e,), None, 'PRINT-RAISED'))
             continue
         try:
-            t2 = es5.Parser().parse(text)
+            t2 = es5.parse(text)
         except Exception as e:
             out.append((s, 'REJECTED %r pretty-prints to %r which does not parse: %s' % (src, text, str(e)[:80]), text, diagnose(tree, s)))
             continue
@@ -79,6 +79,8 @@ def main(run, tier):
     printobl.print_obligations(run, g, ('pretty',))
     from . import sepobl
     sepobl.sep_obligations(run, g, ('pretty',))
+    from . import parsefwd
+    parsefwd.add(run, tier)
     # the per-production obligations speak about one print; "printing again reproduces the output byte for byte" also needs that a
     # print leaves nothing behind in the printer, whatever happened to earlier prints (ownership obligations of C14, imported)
     from .c14 import frame_obligations
